@@ -7,22 +7,23 @@ RULE = ("(baseline, target) pairs from generated evolutions (baseline = replay o
 
 
 def theorem_coverage(chk, res, rows):
-    """share of the sampled pairs that fall under the proved class theorem C06_core_partial3 (hyp_C06_change), and a
+    """share of the sampled pairs that fall under the proved class theorems C06_core_partial3 (hyp_C06_change) and C06_core (hyp_C06_core), and a
     consistency test: hypothesis true must imply the implementation-side oracle passed"""
     import vflib
-    vflib.build_layer("m1", targets=["Corr/Hyp06.vo"])
-    vals = m1run.eval_on_all_cases(res, "hyp_C06_change", imports="Corr Known2 Hyp Hyp06")
+    vflib.build_layer("m1", targets=["Corr/Hyp06.vo", "Corr/Hyp06b.vo"])
     judged = sum(1 for r in rows if r.get("oracles", {}).get("c06") is not None)
     chk.cov["theorem_coverage"]["cases_judged_by_oracle"] = judged
-    if vals is None:
-        chk.cov["theorem_coverage"]["cases_under_C06_core_partial3"] = "not evaluated"
-        return
-    chk.cov["theorem_coverage"]["cases_under_C06_core_partial3"] = sum(1 for v in vals.values() if v)
-    for i, v in vals.items():
-        o = rows[i].get("oracles", {}).get("c06")
-        if v and o is not None and not o.get("ok", True):
-            chk.violation(vflib.write_replay("C06", "theorem:hyp_C06_change-contradicted", {"input": m1run.input_of(rows[i]), "oracle": o}))
-            break
+    for hyp, label in (("hyp_C06_change", "cases_under_C06_core_partial3"), ("hyp_C06_core", "cases_under_C06_core")):
+        vals = m1run.eval_on_all_cases(res, hyp, imports="Corr Known2 Hyp Hyp06 Hyp06b")
+        if vals is None:
+            chk.cov["theorem_coverage"][label] = "not evaluated"
+            continue
+        chk.cov["theorem_coverage"][label] = sum(1 for v in vals.values() if v)
+        for i, v in vals.items():
+            o = rows[i].get("oracles", {}).get("c06")
+            if v and o is not None and not o.get("ok", True):
+                chk.violation(vflib.write_replay("C06", "theorem:%s-contradicted" % hyp, {"input": m1run.input_of(rows[i]), "oracle": o}))
+                break
 
 
 def run(tier, seed):
